@@ -19,6 +19,12 @@ from vf.util import call, chdir, diff_class, environ, same_steps, short, steps_s
 def sources(rng, spec, p, workdir, n):
     """Yields (channel, Outcome) for one logical input through several channels."""
     obj, argv = c01.make_inputs(rng, spec)
+    if spec.get("sub") and len(spec["sub"]["choices"]) >= 2 and "subcommand" in obj and rng.random() < 0.4:
+        # settings for a subcommand that is not the one named: they do not survive the parse, and stay away on re-parse
+        other = rng.choice([n for n in spec["sub"]["choices"] if n != obj["subcommand"]])
+        oobj, _ = c01.make_inputs(rng, spec["sub"]["choices"][other])
+        if oobj:
+            obj[other] = oobj
     yield "parse_object", call(p.parse_object, copy.deepcopy(obj))
     yield "parse_args", call(p.parse_args, list(argv))
     text = json.dumps(obj)
